@@ -269,9 +269,46 @@ def oracle_c09(res, r, tier):
     return n
 
 
+def oracle_c10_cli(res):
+    """the command line spelling of the same promise: --preserve-locals / --preserve-globals hold for EVERY module of an invocation
+    (several paths, a directory), in whatever order, given once or repeated, comma separated"""
+    import subprocess, tempfile, shutil
+    mods = {'alpha.py': "important_total = 1\nshared_counter = 2\ndef entry_point(first_value):\n    kept_local = first_value\n    other_local = kept_local\n    return kept_local, other_local, important_total\n",
+            'beta.py': "shared_counter = 5\nimportant_total = 6\ndef helper(second_value):\n    kept_local = second_value * 2\n    return kept_local + shared_counter\ndef entry_point():\n    return helper(important_total)\n",
+            'pkg/gamma.py': "def entry_point(third_value):\n    kept_local = [third_value]\n    temporary = kept_local\n    return temporary\nimportant_total = entry_point(3)\nshared_counter = important_total\n"}
+    n = 0
+    for args in (['--rename-globals', '--preserve-globals', 'important_total,entry_point', '--preserve-globals', 'shared_counter', '--preserve-locals', 'kept_local'],
+                 ['--preserve-locals', 'kept_local,first_value', '--rename-globals', '--preserve-globals', 'entry_point, shared_counter ,important_total']):
+        for paths in (['alpha.py', 'beta.py', 'pkg/gamma.py'], ['pkg/gamma.py', 'beta.py', 'alpha.py'], ['.']):
+            d = tempfile.mkdtemp(prefix='c10cli-', dir=common.SCRATCH_ROOT)
+            try:
+                for rel, src in mods.items():
+                    os.makedirs(os.path.dirname(os.path.join(d, rel)), exist_ok=True)
+                    open(os.path.join(d, rel), 'w').write(src)
+                env = dict(os.environ, PYTHONPATH=common.SRC)
+                env.pop('PYMINIFY_FORCE_BEST_EFFORT', None)
+                p = subprocess.run([common.PY, '-m', 'python_minifier'] + paths + ['--in-place'] + args, cwd=d, env=env, stdout=subprocess.PIPE, stderr=subprocess.PIPE, timeout=300)
+                n += 1
+                for rel in mods:
+                    out = open(os.path.join(d, rel)).read()
+                    try:
+                        names = {x.id for x in ast.walk(ast.parse(out)) if isinstance(x, ast.Name)} | {x.name for x in ast.walk(ast.parse(out)) if isinstance(x, ast.FunctionDef)}
+                    except SyntaxError:
+                        names = set()
+                    want = {'important_total', 'shared_counter', 'entry_point', 'kept_local'}
+                    src_names = {x.id for x in ast.walk(ast.parse(mods[rel])) if isinstance(x, ast.Name)} | {x.name for x in ast.walk(ast.parse(mods[rel])) if isinstance(x, ast.FunctionDef)}
+                    lost = sorted((want & src_names) - names)
+                    if p.returncode != 0 or lost:
+                        res.add_violation('c10-cli-preserved-name-renamed', 'pyminify %s %s: %s lost the preserved names %s (exit %d)' % (' '.join(paths), ' '.join(args), rel, lost, p.returncode),
+                                          {'paths': paths, 'flags': args, 'module': rel, 'source': mods[rel], 'output': out})
+            finally:
+                shutil.rmtree(d, ignore_errors=True)
+    return n
+
+
 def oracle_c10(res, r, tier):
     import python_minifier
-    n = 0
+    n = oracle_c10_cli(res)
     base = case_sources(r, tier)
     for i, src in enumerate(base):
         pt = ast.parse(src)
